@@ -362,6 +362,11 @@ func c01Gen(tier string, seed int64) []core.Case {
 		}
 	}
 	cs = runVariants(cs, 7, "sign")
+	{
+		id := "fresh-n3-t1/signers=[0 2]/forced-s-series-with-padded-results-kept"
+		cs = append(cs, core.Case{ID: id, Class: id, Kind: "forced-s-series", Cost: 8,
+			P: core.P{"key": "fresh", "n": 3, "t": 1, "signers": []int{0, 2}, "sched": "fifo"}})
+	}
 	if tier == "thorough" {
 		sc := sessCfg{"ecdsa-signing", 3, 1, []int{0, 2}, 0, 0, "seeded", 0.8}
 		p := sc.P()
@@ -556,6 +561,25 @@ func c01Run(c core.Case, env *core.Env) core.Result {
 	}
 	if c.Kind == "forced-s" {
 		c01ForcedS(&r, c, env, sel, t, pub)
+		return r
+	}
+	if c.Kind == "forced-s-series" {
+		// several sessions in one process whose S needs one, one and two bytes of padding; every delivered result is kept
+		// and looked at again after the later sessions (retainAndRecheck in the signature oracle)
+		for _, tg := range []string{"0080..01", "00ff..ff", "0000..80..", "2^248", "0080..01"} {
+			cc := c
+			cc.ID = c.ID + "/" + tg
+			cc.P = core.P{}
+			for k, v := range c.P {
+				cc.P[k] = v
+			}
+			cc.P["target"] = tg
+			c01ForcedS(&r, cc, env, sel, t, pub)
+			if r.Verdict != core.Held {
+				break
+			}
+		}
+		retainAndRecheck(&r, "sig", nil)
 		return r
 	}
 	digest := digestOf(c.P.Str("digest"), env.Seed, c.ID)
